@@ -52,7 +52,9 @@ func c03Variants() []c03Case {
 		out = append(out, c03Case{name: name, mk: mk, pre: pre})
 	}
 	simple := func(name string, k crypto.PrivateKey, ib *pb.IBTP, hash, extra []byte, verified bool) {
-		add(name, nil, func(pw *preWorld) (pb.Transaction, bool, bool) { return c03IBTP(k, ib, hash, extra)(pw), verified, true })
+		add(name, nil, func(pw *preWorld) (pb.Transaction, bool, bool) {
+			return c03IBTP(k, ib, hash, extra)(pw), verified, true
+		})
 	}
 	good := []byte("True")
 	// local request, accept-all rule
@@ -81,7 +83,9 @@ func c03Variants() []c03Case {
 		pw.w.Must(pw.w.Block(fix.IBTPTx(fix.KA, pw.w.N.Next(fix.KA), ib, good)))
 	}
 	rcW := &pb.IBTP{From: fromA, To: toW, Index: 1, Type: pb.IBTP_RECEIPT_SUCCESS}
-	add("receipt/dest-wasm-rule/true", preReqToW, func(pw *preWorld) (pb.Transaction, bool, bool) { return c03IBTP(fix.KW, rcW, sha(good), good)(pw), true, true })
+	add("receipt/dest-wasm-rule/true", preReqToW, func(pw *preWorld) (pb.Transaction, bool, bool) {
+		return c03IBTP(fix.KW, rcW, sha(good), good)(pw), true, true
+	})
 	add("receipt/dest-wasm-rule/plain-false", preReqToW, func(pw *preWorld) (pb.Transaction, bool, bool) {
 		return c03IBTP(fix.KW, rcW, sha([]byte("False")), []byte("False"))(pw), false, true
 	})
@@ -92,8 +96,12 @@ func c03Variants() []c03Case {
 		pw.w.Must(pw.w.Block(fix.IBTPTx(fix.KA, pw.w.N.Next(fix.KA), &pb.IBTP{From: fromA, To: toB, Index: 1}, good)))
 	}
 	rcB := &pb.IBTP{From: fromA, To: toB, Index: 1, Type: pb.IBTP_RECEIPT_SUCCESS}
-	add("receipt/dest-happy-rule/accepted", preReqToB, func(pw *preWorld) (pb.Transaction, bool, bool) { return c03IBTP(fix.KB, rcB, sha(good), good)(pw), true, true })
-	add("receipt/dest-happy-rule/proof-absent", preReqToB, func(pw *preWorld) (pb.Transaction, bool, bool) { return c03IBTP(fix.KB, rcB, nil, nil)(pw), false, true })
+	add("receipt/dest-happy-rule/accepted", preReqToB, func(pw *preWorld) (pb.Transaction, bool, bool) {
+		return c03IBTP(fix.KB, rcB, sha(good), good)(pw), true, true
+	})
+	add("receipt/dest-happy-rule/proof-absent", preReqToB, func(pw *preWorld) (pb.Transaction, bool, bool) {
+		return c03IBTP(fix.KB, rcB, nil, nil)(pw), false, true
+	})
 	// appchain logged out: its rules are gone
 	preLogoutA := func(pw *preWorld) {
 		res := pw.w.Must(pw.w.Block(pw.w.InvokeTx(fix.KA, constant.AppchainMgrContractAddr, "LogoutAppchain", pb.String(fix.ChainA), pb.String("r"))))
